@@ -2,10 +2,11 @@ package main
 
 // Registers layer (properties C04 and C13): runs packet.NewRegisters and every accessor of
 // packet.Registers from /repo on generated windows, addresses, byte orders and call sequences.
-// Entries (see coq/DispRegisters.v): reg_new, reg_access3, reg_seq.
+// Entries (see coq/DispRegisters.v): reg_new, reg_access3, reg_access3r, reg_seq.
 
 import (
 	"math"
+	"strings"
 	"sync"
 
 	"github.com/aldas/go-modbus-client/packet"
@@ -18,6 +19,7 @@ func init() {
 	streams["regstr"] = streamRegStr
 	streams["regseq"] = streamRegSeq
 	streams["regpar"] = streamRegPar
+	streams["regshare"] = streamRegShare
 }
 
 // a slice with len(vis) visible bytes and the bytes of spare behind them, inside the capacity
@@ -189,18 +191,50 @@ func regDo(r *packet.Registers, c regCall) V {
 	})
 }
 
-// regMake: NewRegisters on a private buffer (visible bytes + spare capacity), WithByteOrder when dflt >= 0.
+// regNew creates the Registers object the way a user of the library gets one:
+// route 0: packet.NewRegisters(data, start);
+// route 1/2/3: a response VALUE {UnitID, RegisterByteLen, Data: data} of type ReadHoldingRegistersResponse /
+// ReadInputRegistersResponse / ReadWriteMultipleRegistersResponse and its AsRegisters(start).
+// RegisterByteLen is redundant with len(Data) (parsers set it to len(Data), but the fields are exported
+// and response values are also built and edited by hand, e.g. by servers and tests): AsRegisters must
+// go by Data alone.  blmode: 0 consistent, 1 zero, 2 len/2, 3 len+2 (all as uint8).
+func regNew(data []byte, start uint16, route, blmode int) (*packet.Registers, error) {
+	bl := uint8(len(data))
+	switch blmode {
+	case 1:
+		bl = 0
+	case 2:
+		bl = uint8(len(data) / 2)
+	case 3:
+		bl = uint8(len(data) + 2)
+	}
+	switch route {
+	case 1:
+		return packet.ReadHoldingRegistersResponse{UnitID: 1, RegisterByteLen: bl, Data: data}.AsRegisters(start)
+	case 2:
+		return packet.ReadInputRegistersResponse{UnitID: 1, RegisterByteLen: bl, Data: data}.AsRegisters(start)
+	case 3:
+		return packet.ReadWriteMultipleRegistersResponse{UnitID: 1, RegisterByteLen: bl, Data: data}.AsRegisters(start)
+	}
+	return packet.NewRegisters(data, start)
+}
+
+// regMake: a Registers object (see regNew) on a private buffer (visible bytes + spare capacity),
+// WithByteOrder when dflt >= 0.
 // Returns the object (nil when refused), the whole buffer, and the refusal outcome.
-func regMake(vis, spare []byte, start uint16, dflt int) (r *packet.Registers, buf []byte, refused V) {
+func regMake(vis, spare []byte, start uint16, dflt int, route, blmode int) (r *packet.Registers, buf []byte, refused V) {
 	data := regWithCap(vis, spare)
 	buf = data[:cap(data)]
-	refused = guard(func() V {
-		var err error
-		r, err = packet.NewRegisters(data, start)
+	refused = regOver(data, start, dflt, route, blmode, &r)
+	return r, buf, refused
+}
+
+// regOver: a Registers object over the given slice (not copied)
+func regOver(data []byte, start uint16, dflt int, route, blmode int, out **packet.Registers) V {
+	return guard(func() V {
+		r, err := regNew(data, start, route, blmode)
 		if err != nil {
-			isNil := r == nil
-			r = nil
-			return vErr(I(0), Bool(isNil))
+			return vErr(I(0), Bool(r == nil))
 		}
 		if dflt >= 0 {
 			r2 := r.WithByteOrder(packet.ByteOrder(uint8(dflt)))
@@ -208,13 +242,13 @@ func regMake(vis, spare []byte, start uint16, dflt int) (r *packet.Registers, bu
 				panic("WithByteOrder returned another object")
 			}
 		}
+		*out = r
 		return nil
 	})
-	return r, buf, refused
 }
 
-func regAccess1(vis, spare []byte, start uint16, dflt int, c regCall) V {
-	r, buf, refused := regMake(vis, spare, start, dflt)
+func regAccess1(vis, spare []byte, start uint16, dflt int, c regCall, route, blmode int) V {
+	r, buf, refused := regMake(vis, spare, start, dflt, route, blmode)
 	if refused != nil {
 		return L(refused, B(buf))
 	}
@@ -224,11 +258,27 @@ func regAccess1(vis, spare []byte, start uint16, dflt int, c regCall) V {
 
 var regCases int
 
+// regAccess3: one accessor call on the payload handed over with no spare capacity and with two
+// different spare fillings.  About half of the cases (chosen by a hash of the case counter) obtain
+// the Registers object through AsRegisters of one of the three register response types, with the
+// RegisterByteLen field consistent, zero, halved or two too large (entry reg_access3r).
 func regAccess3(vis, s1, s2 []byte, start uint16, dflt int, c regCall) {
 	regCases++
-	emit("reg_access3",
-		L(B(vis), B(s1), B(s2), I(int(start)), I(dflt), I(c.code), I(int(c.addr)), I(c.p1), I(c.p2)),
-		L(regAccess1(vis, nil, start, dflt, c), regAccess1(vis, s1, start, dflt, c), regAccess1(vis, s2, start, dflt, c)))
+	h := (uint64(regCases) * 0x9E3779B97F4A7C15) >> 33
+	route, blmode := 0, 0
+	if h&1 == 1 {
+		route = 1 + int((h>>1)%3)
+		blmode = int((h >> 8) % 4)
+	}
+	args := []V{B(vis), B(s1), B(s2), I(int(start)), I(dflt), I(c.code), I(int(c.addr)), I(c.p1), I(c.p2)}
+	name := "reg_access3"
+	if route != 0 {
+		name = "reg_access3r"
+		args = append(args, I(route), I(blmode))
+	}
+	emit(name, L(args...),
+		L(regAccess1(vis, nil, start, dflt, c, route, blmode), regAccess1(vis, s1, start, dflt, c, route, blmode),
+			regAccess1(vis, s2, start, dflt, c, route, blmode)))
 }
 
 // two different junk fillings of the same length
@@ -646,7 +696,7 @@ func regSeqArgs(vis, spare []byte, start, dflt int, calls []regCall) V {
 }
 
 func regSeqRun(vis, spare []byte, start uint16, dflt int, calls []regCall) V {
-	r, buf, refused := regMake(vis, spare, start, dflt)
+	r, buf, refused := regMake(vis, spare, start, dflt, 0, 0)
 	if refused != nil {
 		return L(refused)
 	}
@@ -657,7 +707,7 @@ func regSeqRun(vis, spare []byte, start uint16, dflt int, calls []regCall) V {
 	after := B(buf)
 	fresh := make([]V, len(calls))
 	for i, c := range calls {
-		f, _, ref := regMake(vis, spare, start, dflt)
+		f, _, ref := regMake(vis, spare, start, dflt, 0, 0)
 		if ref != nil {
 			fresh[i] = ref
 			continue
@@ -665,4 +715,141 @@ func regSeqRun(vis, spare []byte, start uint16, dflt int, calls []regCall) V {
 		fresh[i] = regDo(f, c)
 	}
 	return L(L(shared...), L(fresh...), after)
+}
+
+// regFresh: every call of the sequence on a fresh private copy of the payload
+func regFresh(vis, spare []byte, start uint16, dflt int, calls []regCall) []V {
+	fresh := make([]V, len(calls))
+	for i, c := range calls {
+		f, _, ref := regMake(vis, spare, start, dflt, 0, 0)
+		if ref != nil {
+			fresh[i] = ref
+			continue
+		}
+		fresh[i] = regDo(f, c)
+	}
+	return fresh
+}
+
+func regRender(vs []V) string {
+	var b strings.Builder
+	L(vs...).put(&b)
+	return b.String()
+}
+
+// streamRegShare: C13 for concurrent consumers of ONE response.  One register response value (its
+// Data = one backing array, with spare capacity) is decoded by 4..8 goroutines at the same time,
+// each through its OWN Registers object obtained from AsRegisters (the three response types in
+// turn), each running its own call sequence: long strings under byte orders with BigEndian set (the
+// path that rearranges bytes), interleaved with plain reads of the same registers.  Reading is
+// free of side effects, so every goroutine must get what its calls return on a fresh private copy,
+// and the shared buffer must be unchanged afterwards.  Each sequence is repeated (more overlap); the
+// first repetition whose results deviate from the fresh ones is the one reported, otherwise the
+// last.  Emitted as reg_seq cases, one per goroutine: [results concurrent; results fresh; buffer
+// after all goroutines finished].  Under -race an accessor that writes to the payload, even if it
+// restores it, is reported as a data race as well.
+func streamRegShare(seed uint64, thorough bool) {
+	r := newRng(seed + 131)
+	rot := &regRotor{r: r}
+	groups, reps := 160, 25
+	if thorough {
+		groups, reps = 1600, 40
+	}
+	for g := 0; g < groups; g++ {
+		count := 4 + r.intn(28)
+		if r.intn(4) == 0 {
+			count = 60 + r.intn(66)
+		}
+		start := r.intn(65536 - count + 1)
+		switch r.intn(4) {
+		case 0:
+			start = r.intn(3)
+		case 1:
+			start = 65536 - count - r.intn(3)
+		}
+		// text without NULs (long strings), both bytes of a register different
+		vis := make([]byte, 2*count)
+		for i := range vis {
+			vis[i] = byte(0x21 + r.intn(0x5e))
+			if i%2 == 1 && vis[i] == vis[i-1] {
+				vis[i] ^= 1
+			}
+			if r.intn(40) == 0 {
+				vis[i] = byte(0x80 + r.intn(0x80))
+			}
+		}
+		spare, _ := regJunk(r)
+		if r.intn(3) == 0 {
+			spare = nil
+		}
+		data := regWithCap(vis, spare)
+		whole := data[:cap(data)]
+		k := 4 + r.intn(5)
+		type consumer struct {
+			dflt  int
+			calls []regCall
+			regs  *packet.Registers
+			fresh []V
+			out   []V
+		}
+		cons := make([]*consumer, k)
+		for j := range cons {
+			c := &consumer{dflt: r.pick([]int{-1, -1, 1, 9, 5, 3, 13, 7, r.intn(16)})}
+			n := 4 + r.intn(27)
+			c.calls = make([]regCall, n)
+			for i := range c.calls {
+				addr := start + r.intn(count)
+				room := 2 * (start + count - addr)
+				if room > 255 {
+					room = 255
+				}
+				switch sel := r.intn(20); {
+				case sel < 7: // String: the default order decides
+					c.calls[i] = regCall{19, uint16(addr), room - r.intn(1+room/4), 0}
+				case sel < 12: // StringWithByteOrder with BigEndian set (or default)
+					c.calls[i] = regCall{20, uint16(addr), room - r.intn(1+room/4), r.pick([]int{0, 1, 9, 5, 3, 11, 13, 15})}
+				case sel < 15:
+					c.calls[i] = regCall{r.pick([]int{5, 6, 21}), uint16(addr), 0, 0}
+				case sel < 17:
+					c.calls[i] = regCall{r.pick([]int{7, 15, 22, 11}), uint16(addr), r.pick([]int{0, 4, 5}), 0}
+				case sel < 18:
+					c.calls[i] = regCall{r.pick([]int{1, 2, 3}), uint16(addr), r.intn(2) * (1 + r.intn(15)), 0}
+				default:
+					c.calls[i] = rot.next(uint16(addr))
+				}
+			}
+			c.fresh = regFresh(vis, spare, uint16(start), c.dflt, c.calls)
+			// its own Registers object over the SHARED backing array, through AsRegisters
+			if ref := regOver(data, uint16(start), c.dflt, 1+j%3, 0, &c.regs); ref != nil {
+				panic("registers.go: regshare: valid payload refused")
+			}
+			cons[j] = c
+		}
+		var wg sync.WaitGroup
+		gate := make(chan struct{})
+		for _, c := range cons {
+			wg.Add(1)
+			go func(c *consumer) {
+				defer wg.Done()
+				want := regRender(c.fresh)
+				<-gate
+				for rep := 0; rep < reps; rep++ {
+					res := make([]V, len(c.calls))
+					for i, cl := range c.calls {
+						res[i] = regDo(c.regs, cl)
+					}
+					c.out = res
+					if regRender(res) != want {
+						break
+					}
+				}
+			}(c)
+		}
+		close(gate)
+		wg.Wait()
+		after := B(whole)
+		for _, c := range cons {
+			emit("reg_seq", regSeqArgs(vis, spare, start, c.dflt, c.calls), L(L(c.out...), L(c.fresh...), after))
+		}
+	}
 }
